@@ -31,10 +31,10 @@ struct Machine {
   // the views are created ONCE per behaviour and live as long as the machine: a view must keep reflecting its buffer
   // (a "view" that snapshots the coefficients at construction would go unnoticed with short-lived views)
   std::unique_ptr<Eigen::Map<G>> m0, m1; std::unique_ptr<Eigen::Map<const G>> c0, c1;
-  std::unique_ptr<Eigen::Map<T>> v0; std::unique_ptr<Eigen::Map<const T>> w0, w1;
+  std::unique_ptr<Eigen::Map<T>> v0, v1; std::unique_ptr<Eigen::Map<const T>> w0, w1;
   Machine() : gbuf(SHIFT + GZ + 3 * (REP + GZ), canary()), tbuf(SHIFT + GZ + 2 * (DOF + GZ), canary()) {
     m0.reset(new Eigen::Map<G>(gs(0))); m1.reset(new Eigen::Map<G>(gs(1))); c0.reset(new Eigen::Map<const G>(gs(0))); c1.reset(new Eigen::Map<const G>(gs(2)));
-    v0.reset(new Eigen::Map<T>(ts(0))); w0.reset(new Eigen::Map<const T>(ts(0))); w1.reset(new Eigen::Map<const T>(ts(1)));
+    v0.reset(new Eigen::Map<T>(ts(0))); v1.reset(new Eigen::Map<T>(ts(1))); w0.reset(new Eigen::Map<const T>(ts(0))); w1.reset(new Eigen::Map<const T>(ts(1)));
   }
 };
 
@@ -54,12 +54,12 @@ template <class F> static void withGMut(Machine& m, const std::string& r, F&& f)
 }
 template <class F> static void withT(Machine& m, const std::string& r, F&& f) {
   if (r == "u0") f(static_cast<const T&>(m.u[0])); else if (r == "u1") f(static_cast<const T&>(m.u[1]));
-  else if (r == "v0") f(static_cast<const Eigen::Map<T>&>(*m.v0));
+  else if (r == "v0") f(static_cast<const Eigen::Map<T>&>(*m.v0)); else if (r == "v1") f(static_cast<const Eigen::Map<T>&>(*m.v1));
   else if (r == "w0") f(static_cast<const Eigen::Map<const T>&>(*m.w0)); else if (r == "w1") f(static_cast<const Eigen::Map<const T>&>(*m.w1));
   else { std::fprintf(stderr, "bad T register %s\n", r.c_str()); std::exit(3); }
 }
 template <class F> static void withTMut(Machine& m, const std::string& r, F&& f) {
-  if (r == "u0") f(m.u[0]); else if (r == "u1") f(m.u[1]); else if (r == "v0") f(*m.v0);
+  if (r == "u0") f(m.u[0]); else if (r == "u1") f(m.u[1]); else if (r == "v0") f(*m.v0); else if (r == "v1") f(*m.v1);
   else { std::fprintf(stderr, "bad mutable T register %s\n", r.c_str()); std::exit(3); }
 }
 
@@ -257,11 +257,15 @@ int main(int argc, char** argv) {
           if (a == "m0" || a == "m1") { Eigen::Map<G> src(m.gs(a == "m0" ? 0 : 1)); D = std::move(src); }
           else { G src = res; D = std::move(src); }
         }
+        // plain assignment is done directly between the two registers, so that every (destination kind, source kind) pair of
+        // assignment operators is exercised (own/view <- own/view/const view), not only "<- owning temporary"
+        else if (op == "assign") { withG(m, a, [&](const auto& X) { D = X; }); }
         else D = res; });
     } else {
       withTMut(m, dst, [&](auto& D) {
         if (op == "tsetZero") { ttwin = tres; have_twin = true; D.setZero(); tres = D; } else if (op == "tsetRandom") { D.setRandom(); tres = D; }
-        else if (op == "tmoveassign") { if (a == "v0") { Eigen::Map<T> src(m.ts(0)); D = std::move(src); } else { T src = tres; D = std::move(src); } }
+        else if (op == "tmoveassign") { if (a == "v0" || a == "v1") { Eigen::Map<T> src(m.ts(a == "v0" ? 0 : 1)); D = std::move(src); } else { T src = tres; D = std::move(src); } }
+        else if (op == "tassign") { withT(m, a, [&](const auto& t) { D = t; }); }
         else D = tres; });
     }
     o.begin("step"); o.raw("g", Info<G>::name()); o.str("sc", ScalarName<S>::n()); o.num("i", step); o.str("op", op); o.str("dst", dst); o.str("a", a); o.str("b", b); o.num("mask", mask);
